@@ -489,6 +489,20 @@ pub fn check(tier: &str, seed: u64) -> i32 {
                 stats.inc(&format!("c16.source.{}", source));
                 stats.note("c16.distinct_expr", fnv(expr.as_bytes()));
                 let probe_seed = rng::run_seed(seed, "C16-probe", idx);
+                crate::report::inflight_note(|| {
+                    Json::obj()
+                        .set("property", Json::s("C16"))
+                        .set("engine", Json::s("c16"))
+                        .set("invariant", Json::s("process-death"))
+                        .set("seed", Json::Int(seed as i128))
+                        .set("run", Json::Int(idx as i128))
+                        .set("expr", Json::s(expr))
+                        .set("probe_seed", Json::Int(probe_seed as i128))
+                        .set("budget_day_probes", Json::Int(budget.day_probes as i128))
+                        .set("budget_full_days", Json::Bool(budget.full_days))
+                        .set("budget_daemon_steps", Json::Int(budget.daemon_steps as i128))
+                        .set("observed", Json::s("the process died while deciding this expression"))
+                });
                 let before_accept = stats.get("c16.verdict.accept");
                 let r = check_expr(expr, probe_seed, *budget, &mut Some(&mut *stats));
                 if stats.get("c16.verdict.accept") > before_accept {
@@ -635,7 +649,6 @@ pub fn replay(doc: &Json) -> i32 {
                 } else {
                     println!("replay: a violation occurs but differs from the recorded one ([{}] {})", inv, want_obs);
                 }
-                println!("VIOLATION property=C16 replay=(replayed)");
                 return 1;
             }
         }
